@@ -331,6 +331,18 @@ func alphabet(m *tbin.Val, s *tbin.Shape, typed bool) []op {
 		path := append(append([]tutil.PE{}, p.Path...), wk)
 		ops = append(ops, op{Kind: "set", Path: path, Val: tbin.I32v(1), ValS: tbin.Sc(tbin.I32), Trig: "wrongkind-on:" + k, Expect: "error"})
 		ops = append(ops, op{Kind: "unset", Path: path, Trig: "wrongkind-on:" + k, Expect: "error"})
+		// a field-NAME step whose name no field carries (an untyped node cannot resolve names at all); the name is as
+		// long as the id of a present field is large
+		if p.V.T == tbin.STRUCT {
+			for _, f := range p.V.Fs {
+				if f.ID > 0 && f.ID <= 40 {
+					np := append(append([]tutil.PE{}, p.Path...), tutil.PE{K: 'f', ID: f.ID, Name: strings.Repeat("x", int(f.ID))})
+					ops = append(ops, op{Kind: "unset", Path: np, Named: true, Trig: "unresolvable-name-step-on:" + k, Expect: "error"})
+					ops = append(ops, op{Kind: "set", Path: np, Named: true, Val: tbin.I32v(1), ValS: tbin.Sc(tbin.I32), Trig: "unresolvable-name-step-on:" + k, Expect: "error"})
+					break
+				}
+			}
+		}
 	}
 	// SetMany on the root container (Node only): every selection of 1..2 among first two children + absent ones
 	if !typed && isContainer(m) {
